@@ -788,8 +788,8 @@ def main(tier=None, replay=None):
             uniform.setdefault(pi, set()).add((out["hit"], out["step_trace"]["ev"][-1].get("near")))
         if len(ck.cov["samples"]) < 6 and out["hit"]:
             ck.sample({"problem": prob, "driver": drv, "t_hit": out["t_hit"], "step_trace": out["step_trace"]})
-    decide(ck, straces, smetas, "real_step")
-    decide(ck, rtraces, rmetas, "real_refine")
+    ssrej, sver = decide(ck, straces, smetas, "real_step")
+    rsrej, rver = decide(ck, rtraces, rmetas, "real_refine")
     nonuni = [pi for pi, s in uniform.items() if len(s) != 1]
     for pi in nonuni:
         ck.violation("event-drivers|uniformity:drivers-disagree-on-the-same-problem",
@@ -827,16 +827,20 @@ def main(tier=None, replay=None):
     ck.part("cross_event_driven", cases=cross)
 
     # 5. binding self-tests: corrupted traces (including the LAST event) must be rejected
-    good = [t for t in straces if t["ev"][-1]["e"] == "located"]
-    if good and rtraces:
+    # (only traces that were accepted take part: a corrupted copy of a rejected trace proves nothing)
+    good = [t for i, t in enumerate(straces) if t["ev"] and t["ev"][-1]["e"] == "located" and i not in ssrej and not sver.get(i)]
+    rgood = [t for i, t in enumerate(rtraces) if i not in rsrej and not rver.get(i) and len(t["ev"]) >= 3]
+    if not (good and rgood):
+        ck.notes.append("binding self-test skipped: no accepted real trace available")
+    else:
         a1 = json.loads(json.dumps(rnd.choice(good)))
         a1["ev"][-1]["near"] += 1                                    # last event: wrong crossing located
         a2 = json.loads(json.dumps(rnd.choice(good)))
         k = next(i for i, e in enumerate(a2["ev"]) if e["e"] == "node")
         a2["ev"][k]["s"] = -a2["ev"][k]["s"] if a2["ev"][k]["s"] else 1   # a node sign off the trajectory
-        a3 = json.loads(json.dumps(rnd.choice(rtraces)))
+        a3 = json.loads(json.dumps(rnd.choice(rgood)))
         a3["ev"][-1]["x"] += 1                                       # last event: abscissa outside the algorithm
-        a4 = json.loads(json.dumps(rnd.choice(rtraces)))
+        a4 = json.loads(json.dumps(rnd.choice(rgood)))
         del a4["ev"][0]                                              # dropped event
         _, srej, _, _ = tlc_traces([a1, a2, a3, a4], "EventLocateTrace.Strict.cfg")
         _, _, ver, _ = tlc_traces([a1, a2], "EventLocateTrace.Loose.cfg")
